@@ -13,7 +13,7 @@ import pgpy.packet.fields as F
 
 warnings.simplefilter('ignore')
 
-FUNCTIONS_ENCODED = ['pgpy.constants.SecurityIssues.causes_signature_verify_to_fail', 'pgpy.pgp.PGPKey.verify',
+FUNCTIONS_ENCODED = ['pgpy.pgp.PGPKey.is_expired / expires_at (O17.5, real)', 'pgpy.packet.fields.RSAPub.verify (O17.6, real)', 'pgpy.constants.SecurityIssues.causes_signature_verify_to_fail', 'pgpy.pgp.PGPKey.verify',
                      'pgpy.pgp.PGPKey.check_soundness', 'pgpy.types.SignatureVerification.__bool__',
                      'pgpy.types.SignatureVerification.good_signatures', 'pgpy.types.SignatureVerification.bad_signatures',
                      'pgpy.types.SignatureVerification.__and__', 'pgpy.types.SignatureVerification.__len__',
